@@ -20,7 +20,8 @@ func init() {
 
 const subSDL = `
 type Query { x: Int }
-type Subscription { listen(topic: String): Event must(topic: String): Event! batch(topic: String): [Event!]! many(topic: String): [Event] fail(topic: String): Event }
+type Subscription { listen(topic: String): Event must(topic: String): Event! batch(topic: String): [Event!]! many(topic: String): [Event] fail(topic: String): Event ticks(topic: String): Int level(topic: String): Level! }
+enum Level { LOW HIGH }
 type Event { id: ID n: Int tag: String inner: Inner list: [Int] }
 type Inner { v: Int w: String }
 `
@@ -129,7 +130,11 @@ func (s *hSub) Match(id string) bool {
 	if listID != (s.field == "batch" || s.field == "many") {
 		return false
 	}
-	id = strings.TrimPrefix(id, "B:")
+	// the leaf-typed streams have id spaces of their own too: their events are plain values
+	if strings.HasPrefix(id, "T:") != (s.field == "ticks") || strings.HasPrefix(id, "V:") != (s.field == "level") {
+		return false
+	}
+	id = strings.TrimPrefix(strings.TrimPrefix(strings.TrimPrefix(id, "B:"), "T:"), "V:")
 	return s.topic == "*" || s.topic == id
 }
 
@@ -187,7 +192,7 @@ type subSubscriptions struct{ r *subRootObj }
 
 func (s *subSubscriptions) Resolve(field *ggql.Field, args map[string]interface{}) (interface{}, error) {
 	switch field.Name {
-	case "listen", "must", "batch", "many":
+	case "listen", "must", "batch", "many", "ticks", "level":
 	case "fail":
 		return nil, fmt.Errorf("the application refuses this stream")
 	default:
@@ -376,6 +381,10 @@ func runC19(c *run.Ctx) {
 				h := &hSub{sid: len(entries), log: lg, failOn: map[int]bool{}, sels: subSelection(r), current: &current, field: "listen"}
 				if r.Intn(3) == 0 {
 					h.field = []string{"must", "batch", "many", "batch"}[r.Intn(4)]
+				} else if r.Intn(6) == 0 {
+					// a stream of plain values: the subscription field has a leaf type (Int, a non-null enum) and no selection set
+					h.field = []string{"ticks", "level"}[r.Intn(2)]
+					h.sels = nil
 				}
 				c.Bucket("subscription_field", h.field)
 				topic := topics[r.Intn(len(topics))]
@@ -448,7 +457,18 @@ func runC19(c *run.Ctx) {
 				ev.badN = r.Intn(6) == 0
 				var payload interface{} = ev
 				evs := []*subEvent{ev}
-				if r.Intn(4) == 0 {
+				leafMsg := ""
+				if lk := r.Intn(8); lk < 2 {
+					// a publish for the leaf-typed subscription fields: the event is the value itself
+					if lk == 0 {
+						topic, payload, leafMsg = "T:"+topic, int(evSeq), fmt.Sprint(evSeq)
+					} else {
+						lv := []string{"LOW", "HIGH"}[evSeq%2]
+						topic, payload, leafMsg = "V:"+topic, lv, `"`+lv+`"`
+					}
+					ev.badN = false
+					hist = append(hist, fmt.Sprintf("publish topic=%s event=%v (a plain value)", topic, payload))
+				} else if r.Intn(4) == 0 {
 					// a publish for the list-typed subscription fields: the event is a slice of 0-3 event objects
 					topic = "B:" + topic
 					evs = nil
@@ -480,7 +500,10 @@ func runC19(c *run.Ctx) {
 				fieldErr := false // some receiving subscriber selected the field that can not be resolved for this event
 				for _, e := range entries {
 					if e.live && e.h.Match(topic) {
-						msg := expectedMessage(ms, e.h.sels, ev)
+						msg := leafMsg
+						if leafMsg == "" {
+							msg = expectedMessage(ms, e.h.sels, ev)
+						}
 						if strings.HasPrefix(topic, "B:") {
 							parts := make([]string, len(evs))
 							for j, e2 := range evs {
@@ -544,6 +567,8 @@ func runC19(c *run.Ctx) {
 				id := topics[r.Intn(len(topics))]
 				if r.Intn(4) == 0 {
 					id = "B:" + id
+				} else if r.Intn(6) == 0 {
+					id = []string{"T:", "V:"}[r.Intn(2)] + id
 				}
 				hist = append(hist, "unsubscribe "+id)
 				var cnt int
